@@ -147,6 +147,38 @@ type GateCase struct {
 	YAML     string   `json:"yaml"`
 	Violated []string `json:"violated"` // invariants the oracle says are broken
 	Problems int      `json:"problems"` // what ValidateNodeGroup returned
+	// Provider, when set, is the node group configuration the cloud provider has to be built with for this file
+	// (what cmd/main.go must hand to the provider: every aws.* option carried over, ready timeout defaulting to 1m)
+	Provider []ProviderExpect `json:"provider,omitempty"`
+}
+
+// ProviderExpect mirrors cloudprovider.NodeGroupConfig as JSON.
+type ProviderExpect struct {
+	Name      string `json:"Name"`
+	GroupID   string `json:"GroupID"`
+	AWSConfig struct {
+		LaunchTemplateID          string   `json:"LaunchTemplateID"`
+		LaunchTemplateVersion     string   `json:"LaunchTemplateVersion"`
+		FleetInstanceReadyTimeout int64    `json:"FleetInstanceReadyTimeout"`
+		Lifecycle                 string   `json:"Lifecycle"`
+		InstanceTypeOverrides     []string `json:"InstanceTypeOverrides"`
+		ResourceTagging           bool     `json:"ResourceTagging"`
+	} `json:"AWSConfig"`
+}
+
+func providerExpect(o controller.NodeGroupOptions) ProviderExpect {
+	var e ProviderExpect
+	e.Name, e.GroupID = o.Name, o.CloudProviderGroupName
+	e.AWSConfig.LaunchTemplateID, e.AWSConfig.LaunchTemplateVersion = o.AWS.LaunchTemplateID, o.AWS.LaunchTemplateVersion
+	e.AWSConfig.Lifecycle, e.AWSConfig.ResourceTagging = o.AWS.Lifecycle, o.AWS.ResourceTagging
+	e.AWSConfig.InstanceTypeOverrides = o.AWS.InstanceTypeOverrides
+	e.AWSConfig.FleetInstanceReadyTimeout = int64(time.Minute)
+	if o.AWS.FleetInstanceReadyTimeout != "" {
+		if d, err := time.ParseDuration(o.AWS.FleetInstanceReadyTimeout); err == nil {
+			e.AWSConfig.FleetInstanceReadyTimeout = int64(d)
+		}
+	}
+	return e
 }
 
 func runC16(tier string, seed int64, si, sn int, rep *monitor.Report, note func(string)) Outcome {
@@ -368,6 +400,30 @@ func c16Decoding(rep *monitor.Report, gate *[]GateCase) int {
 			rep.Violate(P, "yaml-json-differ:key-case", "keys Name/Dry_mode/Max_nodes/AWS: YAML decodes to %+v (err %v), JSON to %+v (err %v)", cy, errY, cj, errJ)
 		}
 	}
+	// what reaches the cloud provider: files with one to three valid groups differing in every aws.* option
+	awsVariants := []controller.AWSNodeGroupOptions{
+		{},
+		{LaunchTemplateID: "lt-0aaa", LaunchTemplateVersion: "3"},
+		{LaunchTemplateID: "lt-0bbb", LaunchTemplateVersion: "$Latest", FleetInstanceReadyTimeout: "45s", Lifecycle: "spot", InstanceTypeOverrides: []string{"m5.large"}, ResourceTagging: true},
+		{LaunchTemplateID: "lt-0ccc", LaunchTemplateVersion: "12", FleetInstanceReadyTimeout: "2m30s", Lifecycle: "on-demand", InstanceTypeOverrides: []string{"c5.xlarge", "c5a.xlarge", "c4.xlarge"}},
+		{FleetInstanceReadyTimeout: "1h", ResourceTagging: true},
+	}
+	for i := range awsVariants {
+		for size := 1; size <= 3; size++ {
+			var groups []map[string]interface{}
+			var expect []ProviderExpect
+			for k := 0; k < size; k++ {
+				o := validOpts()
+				o.Name = fmt.Sprintf("group-%d", k)
+				o.CloudProviderGroupName = fmt.Sprintf("asg-%d-%d", i, k)
+				o.AWS = awsVariants[(i+k)%len(awsVariants)]
+				groups = append(groups, optsMap(o))
+				expect = append(expect, providerExpect(o))
+			}
+			*gate = append(*gate, GateCase{Name: fmt.Sprintf("provider-%d-%d", i, size), YAML: renderYAML(groups), Provider: expect})
+			n++
+		}
+	}
 	// documented keys: every key of the example block in the documentation must influence the decoded options
 	repo := os.Getenv("VERIF_REPO")
 	if repo == "" {
@@ -395,7 +451,8 @@ func c16Decoding(rep *monitor.Report, gate *[]GateCase) int {
 	if probs := controller.ValidateNodeGroup(baseDec[0]); len(probs) > 0 {
 		rep.Violate(P, "doc-example-invalid", "the documented example fails validation: %v", probs)
 	}
-	*gate = append(*gate, GateCase{Name: "doc-example", YAML: example, Violated: safeToRun(baseDec[0]), Problems: len(controller.ValidateNodeGroup(baseDec[0]))})
+	*gate = append(*gate, GateCase{Name: "doc-example", YAML: example, Violated: safeToRun(baseDec[0]), Problems: len(controller.ValidateNodeGroup(baseDec[0])),
+		Provider: []ProviderExpect{providerExpect(baseDec[0])}})
 	lines := strings.Split(example, "\n")
 	for li, line := range lines {
 		trim := strings.TrimSpace(strings.TrimPrefix(strings.TrimSpace(line), "- "))
